@@ -107,6 +107,12 @@ func (db *SingleBucketBackend) ListBucket(bucket string, prefix *gofakes3.Prefix
 
 	path, part, ok := prefix.FilePrefix()
 	if ok {
+		if path != "" && checkObjectName(path) != nil {
+			// No key lives below a directory that path cleaning would move
+			// (keys with such segments are refused), and reading it would
+			// leave the bucket.
+			return gofakes3.NewObjectList(), nil
+		}
 		return db.getBucketWithFilePrefixLocked(bucket, path, part)
 	} else {
 		return db.getBucketWithArbitraryPrefixLocked(bucket, prefix)
